@@ -269,6 +269,9 @@ func (s *decScope) bounded(v ssa.Value, at *ssa.BasicBlock, depth int) (bool, st
 				continue
 			}
 			if upperBoundedAt(x.Block().Preds[i], e, x.Block()) {
+				if s.wrapProne(e, x.Block().Preds[i], depth) && !lowerBoundedAt(x.Block().Preds[i], e, x.Block()) {
+					return false, "the upper-bound test is applied to a product/sum of unbounded input values, which can wrap around to a negative number and pass it"
+				}
 				continue
 			}
 			all = false
@@ -281,9 +284,70 @@ func (s *decScope) bounded(v ssa.Value, at *ssa.BasicBlock, depth int) (bool, st
 		// equality with a bounded expression on a dominating edge
 	}
 	if at != nil && upperBoundedAt(at, v, nil) {
+		if s.wrapProne(v, at, depth) && !lowerBoundedAt(at, v, nil) {
+			return false, "the upper-bound test is applied to a product/sum of unbounded input values, which can wrap around to a negative number and pass it"
+		}
 		return true, "passed an upper-bound test on every path"
 	}
 	return false, fmt.Sprintf("%s (%T)", v.Name(), v)
+}
+
+// wrapProne: v is computed from unbounded operands by an operation that can
+// overflow (so that an upper-bound test on v alone says nothing about its sign).
+func (s *decScope) wrapProne(v ssa.Value, at *ssa.BasicBlock, depth int) bool {
+	bin, ok := stripConv(v).(*ssa.BinOp)
+	if !ok {
+		return false
+	}
+	switch bin.Op {
+	case token.MUL, token.ADD, token.SHL:
+	default:
+		return false
+	}
+	okx, _ := s.bounded(bin.X, at, depth+1)
+	oky, _ := s.bounded(bin.Y, at, depth+1)
+	return !(okx && oky)
+}
+
+// lowerBoundedAt: the facts at `at` (plus the edge to succ) imply v >= 0.
+func lowerBoundedAt(at *ssa.BasicBlock, v ssa.Value, succ *ssa.BasicBlock) bool {
+	facts := factsAt(at)
+	if succ != nil {
+		facts = append(facts, edgeFact(at, succ)...)
+	}
+	for _, f := range facts {
+		be, ok := f.cond.(*ssa.BinOp)
+		if !ok {
+			continue
+		}
+		x, y, op := be.X, be.Y, be.Op
+		if stripConv(y) == stripConv(v) {
+			x, y = y, x
+			op = map[token.Token]token.Token{token.LSS: token.GTR, token.GTR: token.LSS, token.LEQ: token.GEQ, token.GEQ: token.LEQ, token.EQL: token.EQL, token.NEQ: token.NEQ}[op]
+		}
+		if stripConv(x) != stripConv(v) {
+			continue
+		}
+		k, isC := constInt(y)
+		if !isC || k < 0 {
+			continue
+		}
+		switch op {
+		case token.LSS: // v < k false -> v >= k >= 0
+			if !f.taken {
+				return true
+			}
+		case token.GEQ, token.GTR, token.EQL:
+			if f.taken {
+				return true
+			}
+		case token.LEQ: // v <= k false -> v > k
+			if !f.taken {
+				return true
+			}
+		}
+	}
+	return false
 }
 
 func (s *decScope) variadicHasConst(call *ssa.Call) bool {
